@@ -2,6 +2,8 @@
 
 package diff
 
+import "github.com/go-openapi/spec"
+
 func init() {
 	vRegister("VerifC13Numeric", VerifC13Numeric)
 	vRegister("VerifC13PolicyTable", VerifC13PolicyTable)
@@ -62,4 +64,79 @@ func VerifC13PolicyTable() {
 	vCover("table")
 	vAssert(vImplies(must, c == Breaking), "change kind that the documentation lists as breaking is not classified Breaking")
 	vAssert(vImplies(c == Breaking, ds.BreakingChangeCount() == 1), "Breaking entry not counted")
+}
+
+func init() {
+	vRegister("VerifC13String", VerifC13String)
+	vRegister("VerifC13TypeChange", VerifC13TypeChange)
+}
+
+// C13, string query parameter (lengths, pattern, enum, format)
+func VerifC13String() {
+	old := vMakeStrDef("old", vParam("formats") == 1)
+	new := vMakeStrDef("new", vParam("formats") == 1)
+	w := vMakeStrWitness()
+	vAssume(old.accepts(w))
+	vAssume(vNot(new.accepts(w)))
+	vCover("witness-exists")
+	vObserve("fmt", old.format+">"+new.format)
+	vObserve("enumN", old.enumN*10+new.enumN)
+	vObserve("maxLenNarrowed", vAnd(new.hasMaxL, vOr(!old.hasMaxL, new.maxL < old.maxL)))
+	vObserve("patternChanged", vNot(vStrEq(old.pattern, new.pattern)))
+
+	s1 := vSpecWithParams(vQueryParam("p", "string", old.format, old.required, old.validations()))
+	s2 := vSpecWithParams(vQueryParam("p", "string", new.format, new.required, new.validations()))
+	diffs, err := Compare(s1, s2)
+	vAssert(err == nil, "Compare returned an error")
+	vObserve("ndiffs", len(diffs))
+	vObserve("breaking", diffs.BreakingChangeCount())
+	vAssert(vBreaking(diffs), "request value accepted by old string parameter and rejected by new one, but no Breaking change reported")
+}
+
+// C13, primitive type/format change of a query parameter without other constraints.
+// The raw request value is abstracted by what it parses as.
+func VerifC13TypeChange() {
+	types := []string{"string", "integer", "number", "boolean"}
+	t1 := types[vChoice("old.type", 4)]
+	t2 := types[vChoice("new.type", 4)]
+	f1, f2 := "", ""
+	if t1 == "integer" {
+		f1 = []string{"", "int32", "int64"}[vChoice("old.format", 3)]
+	}
+	if t2 == "integer" {
+		f2 = []string{"", "int32", "int64"}[vChoice("new.format", 3)]
+	}
+	if t1 == "number" {
+		f1 = []string{"", "float", "double"}[vChoice("old.format", 3)]
+	}
+	if t2 == "number" {
+		f2 = []string{"", "float", "double"}[vChoice("new.format", 3)]
+	}
+	isNum, isBool := vBool("w.isNumber"), vBool("w.isBool")
+	val := vF64("w.value") // numeric value when isNum
+	vAssume(vNot(vAnd(isNum, isBool)))
+	acc := func(t, f string) bool {
+		switch t {
+		case "string":
+			return true
+		case "boolean":
+			return isBool
+		case "integer":
+			return vAnd(isNum, vAnd(vIsIntegral(val), vInFormatRange(t, f, val)))
+		default:
+			return vAnd(isNum, vInFormatRange(t, f, val))
+		}
+	}
+	vAssume(acc(t1, f1))
+	vAssume(vNot(acc(t2, f2)))
+	vCover("witness-exists")
+	vObserve("change", t1+"."+f1+">"+t2+"."+f2)
+	if vKnown("C13-D15", vAnd(t1 == "integer" && f1 == "" && t2 == "integer" && f2 == "int32", true)) {
+		return
+	}
+	s1 := vSpecWithParams(vQueryParam("p", t1, f1, false, spec.CommonValidations{}))
+	s2 := vSpecWithParams(vQueryParam("p", t2, f2, false, spec.CommonValidations{}))
+	diffs, _ := Compare(s1, s2)
+	vObserve("ndiffs", len(diffs))
+	vAssert(vBreaking(diffs), "parameter type/format narrowed (some raw value no longer parses) but no Breaking change reported")
 }
